@@ -113,6 +113,21 @@ Theorem C10_translated_uniquifier_flags_consistent : forall all d,
 Proof. exact wf_of_init. Qed.
 Print Assumptions C10_translated_uniquifier_flags_consistent.
 
+(* Uniquifier.get_unique_objs as translated from /repo on this run: handed a list as long as the constructor's input, it returns
+   the entries at the model's first-occurrence positions (Packer.select over uniq_ids), for EVERY list; handed nothing, it
+   returns the unique objects the constructor kept *)
+Theorem C10_translated_get_unique_objs_is_model : forall (f : nat -> obj) ids uo inv' nu (us : list nat),
+  length us = length ids ->
+  uniquifier_get_unique_objs (Z.of_nat (length ids)) uo (map Z.of_nat (fst (uniq_ids ids))) inv' nu false (Some (map f us)) =
+  Ok (map f (select 0%nat us (fst (uniq_ids ids)))).
+Proof. exact get_unique_objs_refines. Qed.
+Print Assumptions C10_translated_get_unique_objs_is_model.
+
+Theorem C10_translated_get_unique_objs_default : forall (n : Z) (uo : list obj) (ui inv' : list Z) (nu : Z) (au : bool),
+  uniquifier_get_unique_objs n uo ui inv' nu au None = Ok uo.
+Proof. exact get_unique_objs_default. Qed.
+Print Assumptions C10_translated_get_unique_objs_default.
+
 (* ---- xitorch/_core/editable_module.py as translated from /repo on this run (Gen/PyEditable.v): the search loop of
    _get_unique_params_idxs returns the model's first-occurrence positions for EVERY parameter list; with its groups the scatter of
    setuniqueparams is the model's map_unique and setuniqueparams(getuniqueparams()) is the identity, for every aliasing pattern
